@@ -182,7 +182,7 @@ def debug_part(ck):
 
 
 def run(ck):
-    ck.prove(["AsModel.Theorems.C08"])
+    ck.prove(["AsModel.Theorems.C08", "AsModel.Theorems.C08Effects"])
     ck.build_harness("inproc")
     res = t2.run(ck)
     t2_mm = t2.record(ck, res, ("body", "status"), "where the value expression is spliced")
@@ -219,6 +219,33 @@ def run(ck):
                    len(cases), len({c.text + c.value_text for c in cases}), 0, dist,
                    samples=[dict(invocation="assert_struct!(%s)" % c.text[:150], outcome=c.got[0], ticks=getattr(c, "extra", {}).get("ticks")) for c in cases[:3]],
                    rule="every atom form / range shape / compound type of the C11 catalogue x {matching, bound-crossing value} x {counting asserted expression (a call; an index expression with a counting operand, plain and parenthesised; a counting user Index impl; a field through a counting user Deref impl), counting getter chain, counting user Index impl, counting method argument, counting async getter under .await, index `[0]` / `[-1]` after a counting getter}; every case distinct")
+    # --- the tally model (Effects.lean: `runT`) against the counters: impl = model, case by case -------------------------------
+    METHOD = {"chain": "get", "arg": "at", "await": "aget", "list-index": "list", "list-neg-index": "list"}
+    reqs, idx = [], []
+    for c in cases:
+        if c.got[0] in ("pass", "fail") and getattr(c, "ast", None):
+            m = METHOD.get(c.mode)
+            reqs.append("evalcost\t%s\t%s\t%s\t%s" % (c.ast, c.value_sexp, c.meanings, tgen.hexs(m) if m else "-"))
+            idx.append(c)
+    tdist, tmm = {}, []
+    for c, r in zip(idx, ck.lean_batch(reqs) if reqs else []):
+        f = r.split(" ")
+        if f[0] != "ok":
+            tdist["model:" + f[0]] = tdist.get("model:" + f[0], 0) + 1
+            continue
+        nent, calls, indexes, _awaits, debugs, root = (int(x) for x in f[1:7])
+        ticks = int(getattr(c, "extra", {}).get("ticks", "-1"))
+        predicted = root if c.mode.startswith("root") else (indexes if c.mode == "index" else calls)
+        k = "%s/%s model=%d" % ("root" if c.mode.startswith("root") else c.mode, c.got[0], predicted)
+        tdist[k] = tdist.get(k, 0) + 1
+        if (nent == 0) != (c.got[0] == "pass") or predicted != ticks or debugs > nent:
+            tmm.append(dict(t3.describe(c), mode=c.mode, outcome=c.got[0], evaluations=ticks, model_evaluations=predicted, model_entries=nent, model_debug_calls=debugs))
+    ck.corr_record("T3 evaluation counters vs the tally model (`runT`, Effects.lean: calls of the counting method / index operations / evaluations of the asserted expression the model's run performs)",
+                   len(idx), len({c.text + c.value_text for c in idx}), len(tmm), tdist, samples=tmm[:3],
+                   rule="the cases of the counter corpus the model parser accepts; the model is asked for the tally of the same (pattern, value, meanings)")
+    if tmm and not found:
+        ck.report("corr:T3-tally", "the tally model (execT) no longer predicts the evaluation counts of the real expansion (%d cases differ)" % len(tmm),
+                  dict(broken="correspondence T3 (evaluation counters vs runT)", theorems=["C08_pass_cost", "C08_chains_once_on_pass", "C08_failing_comparison_twice", "C08_debug_calls_le_entries"], first=tmm[:3]), no_input=True)
     if t2_mm and not found:
         ck.report("corr:T2-body", "the model of the code generator no longer matches the real expansion (%d inputs differ)" % len(t2_mm),
                   dict(broken="correspondence T2 (expansion tokens)", theorems=["C08_root_bound_once", "C08_leaf_evaluations"], first=t2_mm[:3]), no_input=True)
